@@ -4,7 +4,7 @@
    A row is one binding of an identifier that is never read anywhere in the file:
      kind   how it is bound
      scope  in what kind of scope the binding statement sits
-     shape  the identifier: "x", "_x" (leading underscore), "__x__"
+     shape  the identifier: "x", "_x" (leading underscore), "__x__", "x_" (trailing underscore: an ordinary name)
    Expected(row) in {"W01", "W02", "none"}:
      W01  a local of a function or lambda (any binding kind inside a function body, including
           its parameters, imports and nested def/class), not starting with an underscore, and not
@@ -29,8 +29,9 @@ Kinds == {"assign", "annassign", "walrus", "tuple", "starred", "for", "with", "e
           "dupimport", "aliasclash",       \* two bindings of one identifier in one statement: import x, x.sub / from os import x as y, y
           "fromalias", "fromalias_us",     \* from os import path as NAME / from os import _exit as NAME (the shape rule looks at NAME)
           "fortuple", "withtuple", "comptuple", "nestedtuple"}   \* the identifier inside a tuple target
-Scopes == {"module", "class", "function", "method", "nested", "lambda", "inmethod", "lambdainmethod"}   \* inmethod: a def nested in a method
-Shapes == {"x", "_x", "__x__"}
+Scopes == {"module", "class", "function", "method", "nested", "lambda", "inmethod", "lambdainmethod",   \* inmethod: a def nested in a method
+           "classinfunction"}                                                                          \* the body of a class written inside a function: class level
+Shapes == {"x", "_x", "__x__", "x_"}          \* x_: a trailing underscore is an ordinary name
 ParamKinds == {"param", "kwonly", "vararg", "kwarg", "posonly"}
 ImportKinds == {"import", "fromimport", "dotted", "aliased", "dupimport", "aliasclash", "fromalias", "fromalias_us"}
 FunctionLike == {"function", "method", "nested", "lambda", "inmethod", "lambdainmethod"}
@@ -38,6 +39,7 @@ FunctionLike == {"function", "method", "nested", "lambda", "inmethod", "lambdain
 Legal(k, s, sh) ==
   /\ (k \in ParamKinds => s \in {"function", "method", "nested", "lambda", "inmethod", "lambdainmethod"})      \* parameters belong to the function itself
   /\ (s \in {"lambda", "lambdainmethod"} => k \in ParamKinds \cup {"walrus", "comp"})                  \* a lambda body is one expression
+  /\ (k \in ParamKinds \cup {"globaldecl", "nonlocaldecl"} => s # "classinfunction")
   /\ (k = "future" => s = "module" /\ sh = "x")                                   \* from __future__ import only at module level
   /\ (k = "star" => s = "module" /\ sh = "x")
   /\ (k = "globaldecl" => s \in {"function", "method", "nested", "inmethod"})
@@ -62,6 +64,6 @@ GenSpec == GenInit /\ [][UNCHANGED row]_row
 GenEmit == PrintT(ToJson([row |-> row, expected |-> Expected(row)]))
 \* sanity of the table itself
 ASSUME \A r \in Rows : Expected(r) \in {"W01", "W02", "none"}
-ASSUME \A r \in Rows : (Expected(r) = "W02") => (r.scope \in {"module", "class"} /\ r.kind \in ImportKinds)
+ASSUME \A r \in Rows : (Expected(r) = "W02") => (r.scope \in {"module", "class", "classinfunction"} /\ r.kind \in ImportKinds)
 ASSUME \E r \in Rows : Expected(r) = "W01" /\ r.kind = "import"
 =============================================================================
